@@ -161,6 +161,19 @@ CLAIMED = {
              "same results' follows only under that assumption. register_allocator is treated as configuration "
              "performed before threads start.",
     ),
+    "C19": dict(
+        category="other",
+        design_ref="DESIGN.md section 3 / C19",
+        technique="static analysis: decision table of the query compared with the property text; pairing, comparison "
+                  "discipline (seeded taint) and must-pass-through rules on the clang CFG",
+        text="NARROW claim. Decides: (R1) is_segment_acked's decision table - zero length => acknowledged; a piece that "
+             "neither ends below the cumulative ACK nor is SACKed => not acknowledged; otherwise continue; true only after "
+             "the last piece (complete table: values are only touched through seq_compare's sign and set membership); (R2) "
+             "every ACK advance in process_packet is preceded by cleanup_sacked_intervals(old, new); (R3) sequence numbers "
+             "are ordered only through seq_compare; (R4) no well-formed SACK block above the ACK is skipped.",
+        note="NOT decided: the interval arithmetic over the wrapping 32-bit space, interval merging/splitting, agreement "
+             "with a set-of-acknowledged-bytes model over histories - these are value-level.",
+    ),
 }
 
 PENDING_REASON = "static rules for this property are designed (DESIGN.md section 3) but not yet implemented/validated; not claimed until silent-and-sensitive"
